@@ -152,7 +152,11 @@ def run(module, cfg=None, *, workers=4, timeout=600, env=None, simulate=None, de
 def require_all_actions_taken(res, allow=()):
     """vacuity control (DESIGN §6): with -coverage 1, an action of the next-state relation that was never taken means the
     invariants were not exercised on it: machinery failure, not a verdict"""
-    zero = [a for a in coverage_zero_actions(res.out) if a not in allow and not a.startswith("Init") and not a.endswith("Init")]
+    # TLC prints an interim coverage report every minute of a long run (actions not taken *yet* show as 0 there): judge the
+    # last, cumulative report only
+    i = res.out.rfind("The coverage statistics at")
+    final = res.out[i:] if i >= 0 else res.out
+    zero = [a for a in coverage_zero_actions(final) if a not in allow and not a.startswith("Init") and not a.endswith("Init")]
     if zero:
         raise TLCError(f"vacuity: actions never taken in the model run: {zero}")
 
